@@ -7,6 +7,13 @@ NOTES = ("exit 0 = every obligation generated from /repo's working tree discharg
          "timeout) - never an alarm. See DESIGN.md.")
 
 CHECKS = {
+    "C15": {
+        "text": "Proof on the real code with the real postcard/bytes/bevy_ecs: (a) totality of deserialize_entity over ALL byte strings (complete: the decoder reads at most 15 bytes), "
+                "(b) round trip and exact consumption for every valid (index, generation) with a trailing byte, (c) BufFlavor/ExtendMutFlavor cursor contracts.",
+        "design_ref": "DESIGN.md §4 U9, §5 C15",
+        "note": "Trusted: Kani/CBMC/CaDiCaL; Backtrace::capture stubbed; Err/Bytes forgotten not dropped; B = Bytes. Loops are postcard's varint loops, unwound with unwinding assertions on (complete).",
+        "technique": "contract-based deductive verification: Kani/CBMC contract harnesses (full-domain symbolic inputs, complete unwinding) on the real crate and its real dependencies",
+    },
     "C12": {
         "text": "Proof, for all inputs (full 32/64-bit domains, no bound): RepliconTick ordering/arithmetic and every ConfirmHistory operation "
                 "(new, contains, contains_any, confirm, set, set_last_tick) against the plain-set-of-confirmed-ticks oracle, as loop-free "
@@ -34,7 +41,6 @@ NOT_APPLICABLE = {
     "C11": PLANNED,
     "C13": PLANNED,
     "C14": "Distinctness of hashes is not a theorem (FNV-1a collides); determinism rests on any::type_name (compiler intrinsic) and a derived Hash; the authorizing comparison is a Bevy observer.",
-    "C15": PLANNED,
     "C16": "Mechanisms are collect_mappings (Query), Updates::send (out of reach) and apply_entity_mapping (World). The only reachable fact (ServerEntityMap::insert then server_entry is Occupied) is proved under C03.",
     "C17": PLANNED,
     "C18": "replicate_into is reflection (TypeRegistry, ReflectComponent, FromReflect) over World archetypes; neither tool can bring it within reach and a shim would be a model of Bevy reflection.",
